@@ -130,6 +130,19 @@ func (t *runTarget) Evaluate(engine runner.Engine) error {
 		return nil
 	}
 
+	// Before the target runs, record that it must be re-run. The reason it runs for need not outlast this process
+	// (a generated file that was missing, a forced build): if the process dies inside the body, the record of the last
+	// successful run must not be left to vouch for outputs that are half-written.
+	pending := targetInfo{
+		Doc:          t.target.Doc(),
+		Dependencies: depData,
+		Rerun:        true,
+	}
+	if err := t.saveInfo(pending); err != nil {
+		proj.events.TargetFailed(label, err)
+		return err
+	}
+
 	// Otherwise, evaluate the target.
 	data, changed, err := t.target.evaluate()
 	if err != nil {
